@@ -130,6 +130,7 @@ def run_c02(res, tier):
     passes.run_live_outer(res, ast)
     passes.run_gvn_invalidate(res, ast)
     passes.run_use_registers(res, ast)
+    passes.run_analysis_eval(res, ast)
     import iolim
     iolim.run_io_map(res, ast)       # ',' stores the next byte or 0 at end of input: part of C02's statement
     if tier == "thorough":
@@ -193,6 +194,7 @@ def run_c11(res, tier):
     passes.run_live_outer(res, ast)
     passes.run_gvn_invalidate(res, ast)
     passes.run_use_registers(res, ast)
+    passes.run_analysis_eval(res, ast)
     res.rule("LAYOUT-PAIR", "the interpreter context is allocated and freed with the identical layout expression, sized for "
              "max(temps, 2) cells (the two register spill slots are always present)", floor=1, what="layout pairs")
     bcops.run_layout_pair(res, ast, "LAYOUT-PAIR")
